@@ -3,16 +3,22 @@
 package metadata
 
 import (
+	"context"
+
 	clientv3 "go.etcd.io/etcd/client/v3"
 )
 
-// VerifNewEtcdStoreC21 builds an EtcdStore exactly like NewEtcdStore but over a caller-supplied
-// client (so its KV can be interposed) and WITHOUT starting the snapshot watcher: the harness
-// delivers "the watch fired" explicitly through RefreshSnapshot, which is what watchSnapshot calls.
-func VerifNewEtcdStoreC21(cli *clientv3.Client, snapshot ClusterMetadata) *EtcdStore {
-	return &EtcdStore{
+// VerifNewEtcdStoreC21 builds an EtcdStore exactly like NewEtcdStore (initial refresh, snapshot
+// watcher started) but over a caller-supplied client, so that the harness can interpose the
+// client's KV (to run other parties between a call's read and its write) and its Watcher (to make
+// the delivery of watch notifications a schedulable event).
+func VerifNewEtcdStoreC21(ctx context.Context, cli *clientv3.Client, snapshot ClusterMetadata) *EtcdStore {
+	store := &EtcdStore{
 		client:    cli,
 		metadata:  NewInMemoryStore(snapshot),
 		available: 1,
 	}
+	_ = store.refreshSnapshot(ctx)
+	store.startWatchers()
+	return store
 }
